@@ -32,6 +32,9 @@ def run(tier, seed):
         cov.update(c08master.stage(r, seed, 80 if tier == 'quick' else 4000))
         return cov
     spec['extra'] = extra
+    # data_retention_timeout as declared in the manifest against what the scheduler holds (the retention oracle itself is
+    # c08master's, which keeps its own record of server states)
+    spec = E.with_master_stage(spec, PID, tier, seed, use_oracle=False)
     core.standard_run(PID, tier, seed, spec)
 
 
